@@ -23,8 +23,8 @@
             C16-F5 (592b6f8: partition / window frame saved around relational arguments), and the plain-aggregate half
             of F1 (8d54bf7) and the group-aggregate half (f809321).  Their RQs are kept below as c16_regression_*: none of them is tolerated any more. *)
 From Coq Require Import List NArith Bool.
-From PV Require Import Lib.ListX Model.Rq Model.RqWf Model.Lowerer Model.RqEq Model.LowererTrace Model.LowererVis Model.LowererSelect
-                       Proofs.RqWfProofs Proofs.LowererProofs Proofs.LowererTraceProofs Proofs.LowererVisProofs Proofs.LowererSelectProofs.
+From PV Require Import Lib.ListX Model.Rq Model.RqWf Model.RqAgg Model.Lowerer Model.RqEq Model.LowererTrace Model.LowererVis Model.LowererSelect Model.LowererEntries
+                       Proofs.RqWfProofs Proofs.LowererProofs Proofs.LowererTraceProofs Proofs.LowererVisProofs Proofs.LowererSelectProofs Proofs.LowererEntriesProofs.
 Import ListNotations.
 Local Open Scope N_scope.
 
@@ -207,6 +207,28 @@ Print Assumptions toposort_lowers_referenced_tables_first.
 Theorem lookup_cid_returns_mapped_id : forall m id name c, lookup_cid_m m id name = Some c -> In c (mapping_cids m).
 Proof. exact lookup_cid_m_in. Qed.
 Print Assumptions lookup_cid_returns_mapped_id.
+
+(* ---- where column ids enter an expression (Model/LowererEntries.v): lower_expr's Ident arm = a lookup_cid read, find_except_ids,
+   the whole-input case of declare_as_columns, the id a declare_as_column hands back, push_select's closing Select ----
+   An operation that passes the entry discipline -- every entry in scope when it is read, every id an emitted transform uses is an
+   entry of the current window -- is a step of the STRICT machine: inside a window only Computes are pushed, so the visible set only
+   grows and an id that was in scope when it was read is in scope when it is used. *)
+Theorem entry_discipline_implies_strict_step : forall s es lo bs s' es',
+  einv (frames s) es -> estep (s, es) (lo, bs) = Some (s', es') ->
+  exists o, elaborate s lo = Some o /\ vstep s o = Some s' /\ einv (frames s') es'.
+Proof. exact estep_vstep. Qed.
+Print Assumptions entry_discipline_implies_strict_step.
+
+(* per program: a trace that passes it proves rq_wf of the implementation's RQ from facts about single reads *)
+Theorem entry_discipline_gives_wf_rq : forall l q, entries_ok l q = true -> rq_wf q = true.
+Proof. exact entries_ok_wf. Qed.
+Print Assumptions entry_discipline_gives_wf_rq.
+
+(* find_selected_all (`select !{..}`, `t.* except ..`): the ids it keeps are ids of `within` and no excluded id survives -- the
+   exclusion itself is sound; finding F7 is a later READ of the excluded column's id from the enclosing pipeline *)
+Theorem find_selected_all_excludes : forall within except c, In c (retain_m within except) <-> In c within /\ ~ In c except.
+Proof. exact retain_m_spec. Qed.
+Print Assumptions find_selected_all_excludes.
 
 (* ---- utils/id_gen.rs: the generators the SQL back end loads from the RQ it is handed (79f4a51) ---- *)
 
@@ -480,4 +502,16 @@ Definition f9_trace : list (lop * list obs) :=
 Example c16_finding_f9_group_select_drops_key :
   rq_diags finding_f9 = [DNotVisible 1 SSelect 0]
   /\ replay_l_verdict false f9_trace finding_f9 = 0 /\ replay_l_verdict true f9_trace finding_f9 = 11.
+Proof. vm_compute. auto. Qed.
+
+(* C12-N18: the RQ of `from t | aggregate {n = count this}` with Aggregate.partition set to its own compute list: every id is
+   defined and visible (rq_wf accepts it), the back end does not terminate on it; rq_agg_ok rejects it *)
+Definition n18_rq : rq :=
+  (mkRq [(mkTable 0 None (mkRel (KExternRef [[116]]) [RWildcard]))]
+        (mkRel (KPipeline [(TFrom (mkTRef 0 [(RWildcard, 0)] (Some [116])));
+                           (TCompute 1 (ENode (KOp [115;116;100;46;99;111;117;110;116]) [ELit]) None true);
+                           (TAggregate [1] [1]); (TSelect [1])]) [(RSingle (Some [110]))])).
+
+Example c16_ex_aggregate_partitioned_by_its_own_column :
+  rq_wf n18_rq = true /\ agg_overlaps n18_rq = [1] /\ rq_agg_ok n18_rq = false /\ rq_agg_ok f4_head_rq = true.
 Proof. vm_compute. auto. Qed.
